@@ -45,6 +45,9 @@ type config struct {
 	FSM      bool              `json:"fsm"`
 	ImportSubst map[string]map[string]string `json:"import_subst"` // module-relative package dir -> {import path -> replacement import path} (the replacement must offer the same names)
 	TypecheckVirtual map[string]string `json:"typecheck_virtual"` // virtual files needed only to type-check inject files (vrt itself)
+	// EntryHooks: repo-relative file -> {function or method name -> name of a function of the same package (from an
+	// injected hook file)}: a call of that function with the instrumented function's parameters is put in front of its body
+	EntryHooks map[string]map[string]string `json:"entry_hooks"`
 }
 
 var report []string
@@ -265,6 +268,18 @@ func (r *rewriter) rewrite() {
 		switch d := n.(type) {
 		case *ast.FuncDecl:
 			d.Doc = nil
+			if rel, err := filepath.Rel(r.repo, r.filename); err == nil && d.Body != nil {
+				if hook, ok := r.cfg.EntryHooks[rel][d.Name.Name]; ok {
+					var args []ast.Expr
+					for _, f := range d.Type.Params.List {
+						for _, n := range f.Names {
+							args = append(args, ast.NewIdent(n.Name))
+						}
+					}
+					d.Body.List = append([]ast.Stmt{&ast.ExprStmt{X: &ast.CallExpr{Fun: ast.NewIdent(hook), Args: args}}}, d.Body.List...)
+					report = append(report, fmt.Sprintf("entry hook %s in %s:%s", hook, rel, d.Name.Name))
+				}
+			}
 		case *ast.GenDecl:
 			d.Doc = nil
 		case *ast.Field:
